@@ -77,12 +77,16 @@ Definition reg_args_of (items : list (nat * (aloc * ity))) : list (reg * (nat * 
                      | LReg r => [(r, (fst x, tab_class_of_type (snd (snd x))))]
                      | LStack _ _ => [] end) items.
 
-(* "Push arguments in reverse order": Register64 -> push; Register32 -> via rax; anything else
-   (8/16-bit and xmm virtual registers) -> NotImplementedError *)
+(* "Push arguments in reverse order": Register64 -> push; Register32 -> via rax; 8/16-bit and xmm
+   virtual registers -> NotImplementedError unless the tree has the repairs (switches of the table,
+   probed on every run from the witnesses ['f64']*9, ['i64']*6+['i8']) *)
 Definition push_mem_arg (x : nat * rcls) : result mop :=
   match snd x with
   | R64c | R32c => Ok (MPushArg (fst x))
-  | _ => Internal NotImplemented
+  | R8c | R16c =>            (* sign extended through al/ax into rax, push rax (when implemented) *)
+      if tab_call_push_small then Ok (MPushArg (fst x)) else Internal NotImplemented
+  | XSc | XDc =>             (* one eightbyte: sub rsp, 8 ; movsd/movss [rsp], reg (when implemented) *)
+      if tab_call_push_fp then Ok (MPushArg (fst x)) else Internal NotImplemented
   end.
 
 (* "Move register args to proper location" *)
@@ -133,7 +137,11 @@ Fixpoint enter_go (stack_offset : Z) (items : list (nat * (aloc * ity))) : resul
           | R64c | R32c | XDc | XSc =>
               more <- enter_go (stack_offset + size) rest ;;
               Ok (MArgFromStack i (stack_offset + 16) (rcls_bits c) :: more)
-          | _ => Internal NotImplemented
+          | R8c | R16c =>          (* loaded into rax, al/ax taken (when implemented) *)
+              if tab_enter_small then
+                more <- enter_go (stack_offset + size) rest ;;
+                Ok (MArgFromStack i (stack_offset + 16) (rcls_bits c) :: more)
+              else Internal NotImplemented
           end
       end
   end.
@@ -170,3 +178,45 @@ Definition gen_prologue (stacksize : Z) (used : list reg) : list mop :=
   prologue_of stacksize (get_callee_saved used).
 Definition gen_epilogue (stacksize : Z) (used : list reg) : list mop :=
   epilogue_of stacksize (get_callee_saved used).
+
+(* ---- by-value aggregates (ir.BlobDataTyp) ------------------------------------------------- *)
+(* determine_arg_locations:  elif isinstance(arg_type, ir.BlobDataTyp):
+                                 reg = StackLocation(offset, arg_type.size); offset += arg_type.size
+   A blob never takes a register and does not advance the register lists. (The C front-end passes
+   every struct argument as such a blob and returns structs through a hidden first pointer
+   parameter "return_value_address", whatever their size.) *)
+Inductive xty := XT (t : ity) | XB (size : Z).
+
+Fixpoint arg_locs_x (int_regs float_regs : list (reg * reg)) (offset : Z) (tys : list xty) : list aloc :=
+  match tys with
+  | [] => []
+  | XB size :: rest => LStack offset size :: arg_locs_x int_regs float_regs (offset + size) rest
+  | XT t :: rest =>
+      if is_int_ty t then
+        match int_regs with
+        | p :: int_regs' =>
+            LReg (if is_32_ty t then snd p else fst p) :: arg_locs_x int_regs' float_regs offset rest
+        | [] => LStack offset tab_int_slot :: arg_locs_x [] float_regs (offset + tab_int_slot) rest
+        end
+      else
+        match float_regs with
+        | p :: float_regs' =>
+            LReg (match t with F32 => fst p | _ => snd p end) :: arg_locs_x int_regs float_regs' offset rest
+        | [] => LStack offset (tab_fp_slot t) :: arg_locs_x int_regs [] (offset + tab_fp_slot t) rest
+        end
+  end.
+Definition determine_arg_locations_x (tys : list xty) : list aloc :=
+  arg_locs_x tab_int_regs tab_float_regs 16 tys.
+
+(* gen_call: stack_size = sum(p[1] for p in mem_args) with (arg, 8) for registers and (arg, arg.size)
+   for blobs; "Pre align stack to 16 bytes" adds stack_size % 16 when that is non-zero. The result is
+   what rsp has been lowered by at the call instruction. *)
+Definition call_mem_sizes_x (tys : list xty) : list Z :=
+  flat_map (fun x => match fst x, snd x with
+                     | XB size, _ => [size]
+                     | XT _, LStack _ _ => [8]
+                     | XT _, LReg _ => []
+                     end) (combine tys (determine_arg_locations_x tys)).
+Definition call_rsp_drop (stack_size : Z) : Z :=
+  if negb (stack_size mod 16 =? 0) then stack_size + call_padding stack_size else stack_size.
+Definition call_rsp_drop_x (tys : list xty) : Z := call_rsp_drop (sumZ (call_mem_sizes_x tys)).
